@@ -107,8 +107,27 @@ func ruleR05b(c *Check) {
 		}
 	}
 	c.Require(ok, "R05b", "target-namespace-writer", "the only Set into the \"target\" namespace is in TargetResultCache.Write", "target results are written outside TargetResultCache.Write: "+names(c, owners), "-")
+	// every caller of Write belongs to the completion function or the helpers it is split into
 	cw := c.G.CallerFuncs(ex.Write)
-	c.Require(len(cw) == 1, "R05b", "result-write-caller", "TargetResultCache.Write is called only by "+names(c, cw), "TargetResultCache.Write has callers "+names(c, cw), "-")
+	region := regionOf(c, ex.Complete)
+	okW := len(cw) >= 1
+	for _, f := range cw {
+		if !region[f] {
+			okW = false
+		}
+	}
+	for f := range region {
+		if f == ex.Complete {
+			continue
+		}
+		for _, cf := range c.G.CallerFuncs(f) {
+			if !region[cf] {
+				okW = false
+				cw = append(cw, cf)
+			}
+		}
+	}
+	c.Require(okW, "R05b", "result-write-caller", "TargetResultCache.Write is called only by the completion function "+c.P.FuncName(ex.Complete)+" (and helpers only it calls)", "TargetResultCache.Write can be reached without going through the completion function: "+names(c, cw), "-")
 	cc := c.G.CallerFuncs(ex.Complete)
 	c.Require(len(cc) == 1 && cc[0] == ex.ExecMethod, "R05b", "completion-caller", "the completion function is called only by the executing method", "the completion function (which stores results) is called from "+names(c, cc)+": a result could be recorded without the success checks of the executing method", "-")
 }
@@ -149,12 +168,37 @@ func ruleR05c(c *Check, rule string) {
 	failEdge := engine.CutEdgesWhere(func(a engine.Atom) bool {
 		return a.Op == "false" && isLoadOfField(a.V, fIsSuccess) && completionIsParam(a.V, compParam)
 	})
-	// on the failure edge: every path to a return passes a cancellation (cancelNode of descendants or cancel-all)
-	cancels := sitesReaching(c, fn, fnSet(w.CancelNode))
+	// on the failure edge: every path to a return passes a cancellation (cancelNode of descendants or cancel-all).
+	// A direct call of the cancel function is a cancellation; a statically resolved first-party helper is
+	// decided by its own paths (callee summary); any other site (go statement, closure, dynamic call) counts
+	// when it can reach the cancel function.
 	isCancel := func(in ssa.Instruction) bool {
-		for _, s := range cancels {
-			if in == ssa.Instruction(s) {
-				return true
+		cs, ok := in.(ssa.CallInstruction)
+		if !ok {
+			return false
+		}
+		if call, ok := in.(*ssa.Call); ok {
+			if h := call.Call.StaticCallee(); h != nil && len(h.Blocks) > 0 {
+				return h == w.CancelNode
+			}
+		}
+		callees := c.G.CalleesOf(cs)
+		return len(callees) > 0 && c.G.ReachableFuncs(callees, nil)[w.CancelNode]
+	}
+	// leaving a loop whose body cancels counts as having cancelled every element, when the loop ranges
+	// over all of GetDescendants(node) or over all nodes of the graph
+	cancelLoopExit := func(bb *ssa.BasicBlock, si int) bool {
+		if si >= len(bb.Succs) || bb.Parent() == nil {
+			return false
+		}
+		for _, b := range bb.Parent().Blocks {
+			for _, in := range b.Instrs {
+				if !isCancel(in) {
+					continue
+				}
+				if lp := engine.LoopOf(in); lp != nil && lp.Header == bb && !lp.Body[bb.Succs[si]] && lp.IsFullRange() && (descendantsLoop(c, lp) || allNodesLoop(c, lp)) {
+					return true
+				}
 			}
 		}
 		return false
@@ -166,21 +210,11 @@ func ruleR05c(c *Check, rule string) {
 		for i, s := range b.Succs {
 			if failEdge(b, i) {
 				found = true
-				// from the first instruction of s, can a return be reached without passing a cancel site?
-				// loops over descendants: an empty descendant list legitimately cancels nothing, so cut the
-				// "range exhausted" path only when the loop body contains the cancel.
-				if reach, _ := engine.PathExists(fn, s.Instrs[0], func(in ssa.Instruction) bool { _, r := in.(*ssa.Return); return r }, engine.PathQuery{
-					CutInstr: isCancel,
-					CutEdge: func(bb *ssa.BasicBlock, si int) bool {
-						// leaving a loop whose body cancels counts as having cancelled every element
-						for _, cs := range cancels {
-							if lp := engine.LoopOf(cs); lp != nil && lp.Header == bb && !lp.Body[bb.Succs[si]] && lp.IsFullRange() && descendantsLoop(c, lp) {
-								return true
-							}
-						}
-						return false
-					},
-				}); reach || isCancel(s.Instrs[0]) && false {
+				if reach, _ := engine.PathExists(fn, nil, func(in ssa.Instruction) bool { _, r := in.(*ssa.Return); return r && in.Parent() == fn }, engine.PathQuery{
+					FromBlock: s,
+					CutInstr:  isCancel,
+					CutEdge:   cancelLoopExit,
+				}); reach {
 					okAll = false
 				}
 			}
@@ -194,8 +228,9 @@ func ruleR05c(c *Check, rule string) {
 	// fail-fast: flag set under the same branch, and once set nothing is released
 	ff := fk("dag.Walker", "failFastTriggered")
 	setsFlag := false
+	handlerFuncs := c.G.ReachableFuncs([]*ssa.Function{fn}, func(f *ssa.Function) bool { return !engine.InPackage(f, "dag") })
 	for _, st := range storesToField(c, ff) {
-		if st.Parent() == fn {
+		if st.Parent() == fn || handlerFuncs[st.Parent()] {
 			if k, ok := engine.BoolConst(st.Val); ok && k {
 				setsFlag = true
 			}
@@ -211,6 +246,25 @@ func ruleR05c(c *Check, rule string) {
 		}
 	}
 	c.Require(okRel, rule, "fail-fast-stops-releases/"+fname, "the fail-fast flag is set on failure and every release site is dominated by the flag-not-set branch", "after fail-fast was triggered a later completion can still release dependants (or the flag is never set)", c.P.Pos(fn.Pos()))
+}
+
+// allNodesLoop: the loop ranges over the graph's own node collection.
+func allNodesLoop(c *Check, lp *engine.Loop) bool {
+	r := lp.RangedValue()
+	if r == nil {
+		return false
+	}
+	for _, o := range engine.Origins(r) {
+		ld, ok := o.(*ssa.UnOp)
+		if !ok {
+			return false
+		}
+		fa, ok := ld.X.(*ssa.FieldAddr)
+		if !ok || engine.FieldKeyOf(fa.X.Type(), fa.Field) != fk("dag.DirectedTargetGraph", "nodes") {
+			return false
+		}
+	}
+	return true
 }
 
 func descendantsLoop(c *Check, lp *engine.Loop) bool {
